@@ -32,6 +32,9 @@ def handleLine (hs : OpsHist.HState) (line : String) : OpsHist.HState × String 
     | some (Except.error e) => (hs, s!"- ## ERROR:{e}")
     | none =>
     (hs,
+    -- generic rule of the harness (`retainCheck`): a byte slice handed out by an earlier call was
+    -- overwritten by this one
+    if impl.getLast? == some "earlier-result-overwritten" then "- ## FAIL:a-result-handed-out-by-an-earlier-call-was-overwritten" else
     let r : Option (Except String (String × String)) := families.findSome? (fun f => f name args impl)
     match r with
     | some (Except.ok (m, v)) => s!"{m} ## {v}"
